@@ -105,6 +105,8 @@ def unbox(spec: Spec, t, st: State, facts: bool = True) -> Sym:
             return S_bool(t.arg(0))
         if facts:
             st.assume(truthy(t) == unB(t))
+            st.assume(unI(t) == z3.If(unB(t), 1, 0))
+            st.assume(t != NONE)
         return S_bool(unB(t))
     if k == "seq":
         if (_is_app_of(t, mkL) or _is_app_of(t, mkT)):
